@@ -1,5 +1,5 @@
 """C01 - pairing is the BLS12-381 optimal-ate pairing (partial claim: identity clause + generator constant)."""
-from .. import guards, consts
+from .. import guards, consts, formulas
 
 EXPL = ('Partial claim. The numerical value of the pairing, bilinearity and order r quantify over ~2^510 inputs and are '
         'NOT decided (no static argument in reach). Decided: (R-GUARD/G1) the clause "e(P,Q) = 1 when P or Q is the '
@@ -7,7 +7,13 @@ EXPL = ('Partial claim. The numerical value of the pairing, bilinearity and orde
         'addition step is control-dependent on the non-identity edges of both members of the same pair (affine and '
         'prepared pairs, all three phases), and the accumulator starts from Fq12::one; (R-CONST, thorough) the exported '
         'generator pairing constant equals the reduced optimal-ate pairing (cubed, as the library\'s final exponent '
-        'does) of the generator constants computed by an independent Python implementation derived from x only.')
+        'does) of the generator constants computed by an independent Python implementation derived from x only; '
+        '(R-POLY/exp) "the library\'s final exponent (the reduced pairing cubed)": final_exponentiation is interpreted in the exponent '
+        'domain (every Fq12 value numbered by its exponent of one symbolic generator; multiply -> +, square -> *2, inverse -> *-1, '
+        'conjugate -> *q^6, frobenius(k) -> *q^k, the x-power chains run over the bits of the bls_x constant) and its total exponent '
+        'equals 3*(q^12-1)/r modulo q^12-1, for distinct and for aliased result/argument - so every output has order dividing r and '
+        'the map is the cube of the reduced pairing for ALL Miller-loop outputs, given that the tower operations are the field '
+        'operations (C04).')
 
 
 def run(ctx):
@@ -17,3 +23,5 @@ def run(ctx):
     for cfg, prog in ctx.programs().items():
         guards.g1_miller_loop(ctx, cfg, prog)
         consts.rule_pairing_constants(ctx, cfg, prog)
+        e = formulas.rule_exponents_gt(ctx, cfg, prog, which=('final',))
+        ctx.floor('R-POLY/exp final exponentiation[%s]' % cfg, e, 2)
